@@ -108,7 +108,7 @@ Proof. intros Hn He. unfold interp_match. rewrite Hn, He. destruct err; reflexiv
 (* ... and a rejected update expression as an error, leaving the table as it was *)
 Theorem update_rejection_surfaces c t k e names vals key err :
   use_native c = false -> get_key (t_ks t) (t_defs t) k = inr key ->
-  lu e (match lookup key (t_data t) with Some i => i | None => k end) vals names = Err err ->
+  lu e (match lookup key (t_data t) with Some i => i | None => Key.key_item (t_ks t) k end) vals names = Err err ->
   t_update lm lu c t k e None names vals = (t, WErr err).
 Proof.
   intros Hn G He. unfold t_update. rewrite G. cbn [check_cond]. unfold interp_update. rewrite Hn.
